@@ -3,8 +3,13 @@ package c02
 import (
 	"fmt"
 	"os"
+	"sort"
+	"runtime/pprof"
 	"strconv"
+	"time"
 	"strings"
+
+	"github.com/dop251/goja"
 
 	"verif/harness/core"
 	"verif/harness/refjs"
@@ -13,6 +18,19 @@ import (
 // Dev is a development aid (not used by any registered command): `c02 dev gen <n> <seed> [strict]` prints generated
 // programs with what goja observed; `c02 dev stats <n> <seed>` prints outcome statistics of the generator.
 func Dev(args []string) {
+	if len(args) > 1 && args[0] == "file" {
+		DevRunFile(args[1])
+		return
+	}
+	if len(args) > 1 && args[0] == "dump" {
+		prg, err := goja.Compile("", args[1], false)
+		if err != nil {
+			fmt.Println(err)
+			return
+		}
+		fmt.Println(goja.VerifProgramDump(prg))
+		return
+	}
 	if len(args) > 0 && args[0] == "compile" {
 		for _, a := range args[1:] {
 			fmt.Printf("%s\n   => ", a)
@@ -27,7 +45,63 @@ func Dev(args []string) {
 	n, _ := strconv.Atoi(args[1])
 	seed, _ := strconv.ParseUint(args[2], 10, 64)
 	strict := len(args) > 3 && args[3] == "strict"
+	if args[0] == "l2" {
+		enableL1 = false
+		args[0] = "sweep"
+	}
+	if args[0] == "l1" {
+		enableL2 = false
+		args[0] = "sweep"
+	}
 	switch args[0] {
+	case "prof":
+		f, _ := os.Create("/tmp/refjs/cpu.prof")
+		pprof.StartCPUProfile(f)
+		stats := core.NewStats()
+		for i := 0; i < n; i++ {
+			ctx := &core.Ctx{Property: "C02", Tier: "quick", Seed: seed, Index: i, Rng: core.CaseRng(seed, "C02", i), Stats: stats}
+			run(ctx)
+		}
+		pprof.StopCPUProfile()
+		f.Close()
+	case "sweep":
+		// run cases 0..n-1 in-process, print violations (first line) and a summary
+		stats := core.NewStats()
+		var held, viol, inc, nt int
+		t0 := time.Now()
+		sigs := map[string]int{}
+		for i := 0; i < n; i++ {
+			ctx := &core.Ctx{Property: "C02", Tier: "quick", Seed: seed, Index: i, Rng: core.CaseRng(seed, "C02", i), Stats: stats}
+			r := run(ctx)
+			switch r.Verdict {
+			case core.Held:
+				held++
+			case core.Violated:
+				viol++
+				key := r.Monitor + ": " + strings.SplitN(r.Detail, "\n", 2)[0]
+				os.MkdirAll("/tmp/refjs/viol", 0755)
+				os.WriteFile(fmt.Sprintf("/tmp/refjs/viol/%d-%d.txt", seed, i), []byte(r.Monitor+"\n"+r.Detail+"\n"), 0644)
+				fmt.Printf("=== VIOLATION index=%d %s\n", i, core.Trunc(key, 200))
+				sigs[r.Monitor]++
+			default:
+				inc++
+			}
+			if r.NonTrivial {
+				nt++
+			}
+		}
+		fmt.Printf("held=%d violated=%d inconclusive=%d nontrivial=%d wall=%v\n", held, viol, inc, nt, time.Since(t0))
+		keys := make([]string, 0)
+		for k := range stats.Counters {
+			keys = append(keys, k)
+		}
+		sort.Strings(keys)
+		for _, k := range keys {
+			fmt.Printf("  %-50s %d\n", k, stats.Counters[k])
+		}
+		for k, m := range stats.Sets {
+			fmt.Printf("  set %s: %d members\n", k, len(m))
+		}
 	case "msgs":
 		cnt := map[string]int{}
 		for i := 0; i < n; i++ {
